@@ -47,6 +47,42 @@ D (directories, all short histories of ``savedir`` into ONE directory)
     data of a never-saved twin (class R).  Nothing is claimed about the value of an
     automatic tag.
 
+    SAVING LEAVES THE SAVED OBJECT AS IT WAS (every history of H): the object handed to
+    save is itself read (a) right before and right after the call, at the very place of the
+    call (histories with ``touch``, where it was read there anyway), and (b) at the end of the
+    history, where it has to be what the never-saved twin is at that point - inside the
+    context that was open at the call, after its exit and inside a later one.  The classes
+    whose ``transform`` works in place on storage with more than two indices
+    (TransitionDipoleMoment, ReducedDensityMatrixEvolution, StateVectorEvolution, next to
+    DensityMatrixEvolution) are members of H for this reason (quick: first matrix kind).
+
+I (import inside a context, all short histories)
+    a basis managed object that offers ``save_data``/``load_data`` (Operator, Hamiltonian,
+    ReducedDensityMatrix, DensityMatrixEvolution, TransitionDipoleMoment,
+    StateVectorEvolution: both managed-array property factories, every kind of ``transform``)
+    x extension {.dat,.txt,.npy,.npz} (quick: without .txt, in every class the same writer
+    and reader as .dat; first matrix kind of each class): inside <= 2 nested contexts an object A exports its
+    data and a RECEIVER B - made before the contexts, other content, {not yet read, read}
+    inside them - imports the file at the same place; B is then read {inside}, {after all
+    contexts were left}, {inside one later context}, every subset of the first two reads
+    being a history of its own (a read can register or transform the object and so hide what
+    the next read would have seen).  Oracle: a TWIN that exported and imported the same way
+    OUTSIDE every context and is read at the same places (class R).  Cells in which the
+    format of the class cannot carry the CONTENT seen in the context (the complex
+    representation of a real matrix in a complex basis in a table of real numbers) are decided
+    by exporting/importing that very array outside every context: raises there too = the cell
+    is not offered.
+
+R (one file name used again, all short histories)
+    data files: every sequence of <= 3 (thorough: 5) steps from {export source 0, export
+    source 1 (same shape), export source 2 (longer), import into a fresh receiver, write in
+    place into the array the last receiver hands out} on ONE file name x class x extension
+    x {real, complex} x {without, with axis}; parcels: every sequence from {save content 0,
+    save content 1, load} x class x {save/load, save_parcel/load_parcel}.  After EVERY step
+    every receiver made so far is read again.  Oracle: a model - a receiver holds the array
+    (the axis, the observables) the file held when it imported, later exports, imports and
+    writes into other receivers do not reach it; a fresh import returns the last export.
+
 Everything the check writes goes to a fresh ``tempfile.mkdtemp()`` directory which is removed
 before the case returns.
 """
@@ -460,6 +496,13 @@ CLASSES = ["TimeAxis", "FrequencyAxis", "DFunction", "Operator", "Hamiltonian",
            "ReducedDensityMatrix", "DensityMatrixEvolution", "Molecule", "MoleculeMode",
            "Aggregate", "CorrelationFunction", "SpectralDensity", "AbsSpectrum",
            "AbsSpectrumContainer", "TwoDResponse", "TwoDResponseContainer"]
+# classes whose transform() works IN PLACE on storage with more than two indices (the first 16
+# classes are the casts of part D; these ones are members of H, I and R only).  Saveable ones
+# take every route, StateVectorEvolution is no Saveable and goes through save_parcel only
+H_EXTRA_CLASSES = ["TransitionDipoleMoment", "ReducedDensityMatrixEvolution",
+                   "StateVectorEvolution"]
+H_CLASSES = CLASSES + H_EXTRA_CLASSES
+ROUTES_OF = {"StateVectorEvolution": ["parcel"]}
 OWN_S = ("Hamiltonian", "Molecule", "MoleculeMode", "Aggregate")   # "B:S" is the object's own H
 HOLDERS = ("Molecule", "MoleculeMode", "Aggregate")   # keep basis managed parts (H, dipoles)
 ROUTES = ["save-load", "fileobj", "parcel", "dir", "scopy"]
@@ -478,7 +521,9 @@ KOPS = ["real", "complex"]
 REAL_STORAGE_OBSERVABLES = ("D.data",)
 DATA_KINDS = {"Operator": ["real", "complex"], "Hamiltonian": ["real", "complex"],
               "ReducedDensityMatrix": ["complex", "real"],
-              "DensityMatrixEvolution": ["complex", "real"]}
+              "DensityMatrixEvolution": ["complex", "real"],
+              "ReducedDensityMatrixEvolution": ["complex", "real"],
+              "TransitionDipoleMoment": ["real", "complex"]}
 
 
 def _symm(d, k):
@@ -561,14 +606,24 @@ def _build(cls, v, kdata=None):
         if kdata == "real":                 # real symmetric
             r = numpy.array([[0.5, 0.1, 0.02], [0.1, 0.3, -0.05], [0.02, -0.05, 0.2]])
         return qr.ReducedDensityMatrix(data=r * f), 3, None
-    if cls == "DensityMatrixEvolution":
-        from quantarhei.qm.propagators.dmevolution import DensityMatrixEvolution
-        o = DensityMatrixEvolution(qr.TimeAxis(0.0, 3, 1.0))
+    if cls in ("DensityMatrixEvolution", "ReducedDensityMatrixEvolution"):
+        from quantarhei.qm.propagators import dmevolution
+        o = getattr(dmevolution, cls)(qr.TimeAxis(0.0, 3, 1.0))
         o.dim = 3
         # "real": real symmetric VALUES in the complex storage the class declares
         # (BasisManagedComplexArray); DensityMatrixEvolution.transform assigns into the
         # existing array, a real dtype could not hold the matrix in a complex basis at all
         o.data = _herm("complex" if kdata == "complex" else "complex-zero-imag", 3, 3) * f
+        return o, 3, None
+    if cls == "TransitionDipoleMoment":
+        # three self-adjoint components in (d,d,3) storage; "real" is the dtype the class
+        # allocates itself, "complex": complex Hermitian components
+        dd = numpy.moveaxis(_herm("real" if kdata == "real" else "complex", 3, 3), 0, 2) * f
+        return qr.TransitionDipoleMoment(data=numpy.ascontiguousarray(dd)), 3, None
+    if cls == "StateVectorEvolution":
+        psi = qr.StateVector(data=numpy.array([0.6, 0.8j, 0.0]))
+        o = qr.StateVectorEvolution(qr.TimeAxis(0.0, 3, 1.0), psi)
+        o.data = (_gdata("complex", (3, 3)) * f)
         return o, 3, None
     if cls in ("Molecule", "MoleculeMode"):
         with qr.energy_units("1/cm"):
@@ -648,8 +703,12 @@ def observe(cls, o):
         return {"data": o.data, "dim": o.dim, "has_rwa": bool(o.has_rwa)}
     if cls == "ReducedDensityMatrix":
         return {"data": o.data, "populations": o.get_populations(), "dim": o.dim}
-    if cls == "DensityMatrixEvolution":
+    if cls in ("DensityMatrixEvolution", "ReducedDensityMatrixEvolution"):
         return {"data": o.data, "TimeAxis.data": o.TimeAxis.data, "at(1)": o.at(1.0).data}
+    if cls == "TransitionDipoleMoment":
+        return {"data": o.data, "dim": o.dim, "component1": o.get_compoment_data(1)}
+    if cls == "StateVectorEvolution":
+        return {"data": o.data, "TimeAxis.data": o.TimeAxis.data, "dim": o.dim}
     if cls in ("Molecule", "MoleculeMode"):
         out = {"name": o.get_name(), "nel": o.nel, "energy0": o.get_energy(0),
                "energy1": o.get_energy(1), "dipole01": o.get_dipole(0, 1),
@@ -842,14 +901,21 @@ def _run_world(case, with_io, tmp):
     try:
         for t in case["pre"]:
             w.enter(t)
+        orig = {}
         if case["touch"]:
-            observe(cls, w.obj)
+            orig["before-save"] = _freeze(observe(cls, w.obj))
             if w.decoy is not None:
                 observe(cls, w.decoy)
         handle = None
         if with_io:
             stage = "save"
             handle = _save(route, w, tmp)
+        if case["touch"]:
+            # the object under test read once more at the very place it was read before the
+            # call (it IS in the basis of this place already: reading it again changes nothing
+            # in either world)
+            stage = "reread-saved-object"
+            orig["after-save"] = _freeze(observe(cls, w.obj))
         stage = "mid"
         for m in case["mid"]:
             if m == "x":
@@ -877,7 +943,11 @@ def _run_world(case, with_io, tmp):
         if first is not None:
             res.update(_freeze({"dir-first-entry:" + k: v
                                 for k, v in observe(cls, first).items()}))
-        return "ok", res, None
+        if with_io:
+            # the SAVED object at the end of the history, after everything else was read
+            stage = "read-saved-object"
+            orig["at-read"] = _freeze(observe(cls, w.obj))
+        return "ok", res, orig
     except isolation.HarnessError:
         raise
     except Exception as e:
@@ -943,7 +1013,7 @@ def eval_h(case):
         saved_tempdir = tempfile.tempdir
         tempfile.tempdir = tmp
         try:
-            st1, got, _ = _run_world(case, True, tmp)
+            st1, got, orig = _run_world(case, True, tmp)
         finally:
             tempfile.tempdir = saved_tempdir
     finally:
@@ -953,7 +1023,7 @@ def eval_h(case):
         " (context operators complex Hermitian)" if case.get("kop") == "complex" else "",
         case["pre"], case["touch"], case["mid"], case["rd"])
     nontrivial = bool(case["pre"] or case["mid"] or case["rd"] not in ("here", "root"))
-    worst = 0.0
+    worst = worst_orig = 0.0
     if st1 == "dir-tags":
         viol.append(("parcel/dir-tags-differ", hist + ": " + got, None))
         return {"nontrivial": nontrivial, "outcome": ["dir-tags", cls], "violations": viol}
@@ -997,9 +1067,43 @@ def eval_h(case):
                          {"observable": name, "saved_basis_depth": ds, "read_basis_depth": dr,
                           "expected": repr(e)[:400], "observed": repr(g)[:400]}))
             break
+    # saving leaves the SAVED object as it was: (a) read at the place of the call before and
+    # after it, (b) read at the end of the history it is what the never-saved twin is there
+    pairs = []
+    if "after-save" in orig:
+        pairs.append(("saving-changes-saved-object", orig["before-save"], orig["after-save"],
+                      "read again right after the call, differs from what it was right "
+                      "before the call"))
+    pairs.append(("saved-object-differs-afterwards",
+                  {k: v for k, v in exp.items()
+                   if k != "type" and not k.startswith("dir-first-entry:")}, orig["at-read"],
+                  "read at the end of the history, differs from the never-saved twin"))
+    for key, ref, now, what in pairs:
+        for name in ref:
+            if case.get("kop") == "complex" and name in REAL_STORAGE_OBSERVABLES:
+                continue
+            e, g = ref[name], now.get(name)
+            if isinstance(e, (str, bool)) or e is None:
+                same, err = (e == g), None
+            elif g is None:
+                same, err = False, None
+            else:
+                same, err = approx(g, e, TOL)
+                if same:
+                    worst_orig = max(worst_orig, err / max(
+                        float(numpy.max(numpy.abs(e))) if numpy.size(e) else 0.0, 1e-300))
+            if not same:
+                viol.append(("parcel/%s/%s/%s" % (key, sig, _tail(cls, ds, name)),
+                             "%s: %s of the SAVED object, %s (max abs deviation %s; basis depth "
+                             "at save %d, at read %d)" % (hist, name, what, err, ds, dr),
+                             {"observable": name, "saved_basis_depth": ds,
+                              "read_basis_depth": dr, "expected": repr(e)[:400],
+                              "observed": repr(g)[:400]}))
+                break
     return {"nontrivial": nontrivial,
             "outcome": ["ok" if not viol else "bad", cls, dig[:3]],
-            "violations": viol, "info": {"dev": {"parcel-values": worst}}}
+            "violations": viol, "info": {"dev": {"parcel-values": worst,
+                                                 "parcel-saved-object": worst_orig}}}
 
 
 def histories(tokens, maxdepth, lmid):
@@ -1033,6 +1137,13 @@ def h_bounds(tier):
     return ["U:1/cm", "U:eV", "B:S", "B:A"], 2, 3
 
 
+def h_kinds(tier, cls):
+    """Matrix kinds of a class in H: all of them; quick takes the first kind only of the
+    classes added for their in-place transform (their second kind is thorough)."""
+    kinds = DATA_KINDS.get(cls, [None])
+    return kinds[:1] if (tier == "quick" and cls in H_EXTRA_CLASSES) else kinds
+
+
 def cases_h(tier):
     tokens, maxdepth, lmid = h_bounds(tier)
     hs = histories(tokens, maxdepth, lmid)
@@ -1040,9 +1151,9 @@ def cases_h(tier):
     for hh in hs:
         basis = any(t.startswith("B:") for t in hh["pre"] + hh["mid"] + [hh["rd"]])
         for kop in (KOPS if basis else KOPS[:1]):   # no basis context: no context operator
-            for cls in CLASSES:
-                for kdata in DATA_KINDS.get(cls, [None]):
-                    for route in ROUTES:
+            for cls in H_CLASSES:
+                for kdata in h_kinds(tier, cls):
+                    for route in ROUTES_OF.get(cls, ROUTES):
                         if route in ATOMIC and hh["mid"]:
                             continue        # scopy saves and loads in one call
                         c = {"part": "H", "cls": cls, "route": route, "kop": kop}
@@ -1235,11 +1346,548 @@ def cases_d(tier):
 
 
 # ==========================================================================
+# I: data imported INSIDE a context into a basis managed object
+# ==========================================================================
+# classes which are a basis managed array AND offer save_data/load_data (MatrixData): both
+# property factories of utils/types.py (basis managed: Operator ...; units and basis managed:
+# Hamiltonian) and every kind of transform() (two indices, three indices in place, vectors)
+I_CLASSES = ["Operator", "Hamiltonian", "ReducedDensityMatrix", "DensityMatrixEvolution",
+             "TransitionDipoleMoment", "StateVectorEvolution"]
+I_EXTS = [".dat", ".txt", ".npy", ".npz"]        # what MatrixData.save_data documents
+I_POINTS = ["inside", "after-exit", "later-context"]
+
+
+def i_bounds(tier):
+    """(context tokens, max nesting, matrix kinds per class: None = all of DATA_KINDS,
+    extensions: .txt is the same writer and reader as .dat in every class, thorough only)"""
+    if tier == "quick":
+        return ["U:1/cm", "B:S", "B:A"], 2, 1, [e for e in I_EXTS if e != ".txt"]
+    return ["U:1/cm", "U:eV", "B:S", "B:A"], 2, None, I_EXTS
+
+
+def _i_world(case, inside, tmp, content=None):
+    """One execution of an import history.  The exporting object A writes its data to a file
+    and the receiving object B (other content, made before any context) reads the file
+      inside=True   at the place of the history, i.e. inside the contexts `pre`
+      inside=False  before the history, outside every context (the twin)
+    then B is read where the history says so.  Returns (status, {point: observables} |
+    (stage, type, message, where), exported array | None)."""
+    w = _World({"cls": case["cls"], "route": "-", "kop": case.get("kop", "real"),
+                "kdata": case.get("kdata")})
+    cls = case["cls"]
+    A = w.obj
+    B = _build(cls, 1, case.get("kdata"))[0]
+    fn = os.path.join(tmp, ("in" if inside else "out") + "-export" + case["ext"])
+    obs, exported = {}, []
+    stage = "build"
+
+    def transfer():
+        if content is not None:
+            A.data = content
+        exported.append(numpy.array(A.data, copy=True))   # what save_data is about to write
+        A.save_data(fn)
+        B.load_data(fn)
+
+    try:
+        if not inside:
+            stage = "transfer"
+            transfer()
+        stage = "enter"
+        for t in case["pre"]:
+            w.enter(t)
+        if case["touch"]:
+            stage = "read-before-import"
+            observe(cls, B)
+        if inside:
+            stage = "transfer"
+            transfer()
+        if case["see_inside"]:
+            stage = "inside"
+            obs["inside"] = _freeze(observe(cls, B))
+        stage = "exit"
+        while w.stack:
+            w.exit()
+        if case["see_outside"]:
+            stage = "after-exit"
+            obs["after-exit"] = _freeze(observe(cls, B))
+        if case["rd"] is not None:
+            stage = "enter-later-context"
+            w.enter(case["rd"])
+            stage = "later-context"
+            obs["later-context"] = _freeze(observe(cls, B))
+            stage = "exit-later-context"
+            w.exit()
+        return "ok", obs, exported[0]
+    except isolation.HarnessError:
+        raise
+    except Exception as e:
+        where = _lib_frame(e)
+        if where is None:
+            raise isolation.HarnessError("I harness failure at stage %s: %r in %r"
+                                         % (stage, e, case))
+        return ("raises", (stage, type(e).__name__, str(e)[:200], where),
+                exported[0] if exported else None)
+    finally:
+        w.unwind()
+        isolation.reset_manager()
+
+
+def _i_ctx(case):
+    kinds = set(t[0] for t in case["pre"])
+    return {"": "no-context", "U": "units-context", "B": "basis-context",
+            "BU": "units+basis-contexts"}["".join(sorted(kinds))]
+
+
+def eval_i(case):
+    cls = case["cls"]
+    cell = "%s/%s/%s" % (_i_ctx(case), "receiver-read-inside-before" if case["touch"]
+                         else "receiver-new-to-the-context", cls)
+    hist = ("%s%s %s: export and import inside pre=%s (receiver made before%s)%s; read: %s"
+            % (cls, "[%s matrix]" % case["kdata"] if case.get("kdata") else "", case["ext"],
+               case["pre"], ", read inside before the import" if case["touch"] else "",
+               " (context operators complex Hermitian)" if case.get("kop") == "complex" else "",
+               ", ".join((["inside"] if case["see_inside"] else [])
+                         + (["after exit"] if case["see_outside"] else [])
+                         + (["inside later " + case["rd"]] if case["rd"] else []))))
+    nontrivial = bool(case["pre"])
+    tmp = _mkdtemp("c18i_")
+    try:
+        st0, exp, _ = _i_world(case, False, tmp)
+        if st0 != "ok":
+            # export/import of this class x format does not work outside contexts either, or
+            # the read history itself fails on an object that imported outside (C04/C05)
+            return {"nontrivial": False, "outcome": ["twin-fails", cls, case["ext"],
+                                                     str(exp[:2])],
+                    "violations": [], "info": {"i_twin_fail": "%s %s %s:%s" % (
+                        cls, case["ext"], exp[0], exp[1])}}
+        st1, got, exported = _i_world(case, True, tmp)
+        if st1 == "raises" and got[0] == "transfer" and exported is not None:
+            # is it the CONTENT the format of this class cannot carry (e.g. the complex
+            # representation of a real matrix in a complex basis in a real-only text table)?
+            # the same array exported and imported outside every context tells
+            probe = dict(case, pre=[], touch=0, see_inside=0, see_outside=1, rd=None)
+            stp, gp, _ = _i_world(probe, False, tmp, content=exported)
+            if stp == "raises" and gp[0] == "transfer" and gp[1] == got[1]:
+                return {"nontrivial": False,
+                        "outcome": ["content-not-carried", cls, case["ext"], got[1]],
+                        "violations": [], "info": {"i_content": "%s %s: %s data (%s)" % (
+                            cls, case["ext"], exported.dtype, got[1])}}
+    finally:
+        shutil.rmtree(tmp, ignore_errors=True)
+    viol = []
+    worst = 0.0
+    if st1 == "raises":
+        stage, tname, msg, where = got
+        sym = "basis-not-on-stack" if "Basis of the object is not on stack" in msg else tname
+        viol.append(("ctx-import/%s-raises:%s/%s" % (stage, sym, cell),
+                     "%s -> %s raised %s: %s [%s]" % (hist, stage, tname, msg, where),
+                     {"stage": stage, "where": where}))
+        return {"nontrivial": nontrivial, "outcome": ["raises", cls, stage, sym],
+                "violations": viol}
+    dig = []
+    for point in I_POINTS:
+        if point not in exp:
+            continue
+        bad = None
+        for name, e in exp[point].items():
+            if case.get("kop") == "complex" and name in REAL_STORAGE_OBSERVABLES:
+                continue
+            g = got[point].get(name)
+            if isinstance(e, (str, bool)) or e is None:
+                same, err = (e == g), None
+            else:
+                same, err = approx(g, e, TOL)
+                if same:
+                    worst = max(worst, err / max(
+                        float(numpy.max(numpy.abs(e))) if numpy.size(e) else 0.0, 1e-300))
+                dig.append(_digest(g))
+            if not same:
+                bad = (name, err, e, g)
+                break
+        if bad is not None:
+            viol.append(("ctx-import/values-differ/read-%s/%s" % (point, cell),
+                         "%s: %s of the receiving object read %s differs from the twin that "
+                         "imported outside every context (max abs deviation %s)"
+                         % (hist, bad[0], point, bad[1]),
+                         {"observable": bad[0], "point": point, "expected": repr(bad[2])[:400],
+                          "observed": repr(bad[3])[:400]}))
+            break
+    return {"nontrivial": nontrivial,
+            "outcome": ["ok" if not viol else "bad", cls, case["ext"], dig[:2], dig[-1:]],
+            "violations": viol, "info": {"dev": {"ctx-import-values": worst}}}
+
+
+def cases_i(tier):
+    tokens, maxdepth, nkinds, exts = i_bounds(tier)
+    hs = []
+    for lp in range(maxdepth + 1):
+        for pre in itertools.product(tokens, repeat=lp):
+            for touch in ((0, 1) if lp else (0,)):
+                for see_inside in ((0, 1) if lp else (0,)):
+                    for rd in [None] + tokens:
+                        # without a later context the read after exit is the last one
+                        for see_outside in ((1,) if rd is None else (0, 1)):
+                            hs.append({"pre": list(pre), "touch": touch,
+                                       "see_inside": see_inside, "see_outside": see_outside,
+                                       "rd": rd})
+    hs.sort(key=lambda h: (len(h["pre"]) + (h["rd"] is not None), len(h["pre"]), h["touch"],
+                           h["see_inside"], h["see_outside"]))
+    cs = []
+    for hh in hs:
+        basis = any(t and t.startswith("B:") for t in hh["pre"] + [hh["rd"]])
+        for kop in (KOPS if basis else KOPS[:1]):
+            for cls in I_CLASSES:
+                for kdata in DATA_KINDS.get(cls, [None])[:nkinds]:
+                    for ext in exts:
+                        c = {"part": "I", "cls": cls, "ext": ext, "kop": kop}
+                        if kdata is not None:
+                            c["kdata"] = kdata
+                        c.update(hh)
+                        cs.append(c)
+    return cs
+
+
+# ==========================================================================
+# ==========================================================================
+# R: histories of exports and imports through ONE file name
+# ==========================================================================
+# data files: E0/E1 export source no. 0/1 (same shape, other values), E2 exports a source with
+# a LONGER first dimension, I imports into a fresh receiver, W overwrites IN PLACE the array the
+# most recent receiver hands out as its data.  parcels: S0/S1 save content variant 0/1, L loads.
+# After EVERY step every receiver made so far is read again: it holds what the file held when
+# it imported (resp. what it held after its own W), and a fresh import returns the last export.
+R_DATA_OPS = ["E0", "E1", "E2", "I", "W"]
+R_PARCEL_OPS = ["S0", "S1", "L"]
+R_PARCEL_ROUTES = ["save-load", "parcel"]
+
+
+def r_bounds(tier):
+    """max number of steps of a data-file history, of a parcel history"""
+    return (3, 3) if tier == "quick" else (5, 5)
+
+
+def _r_cells(tier):
+    """(class, base shape, axis) of the data-file histories"""
+    cells = [("DFunction", [4], False), ("DFunction", [4], True),
+             ("AbsSpectrum", [4], True),
+             ("TwoDResponse", [4, 3], False), ("TwoDResponse", [4, 3], True),
+             ("DensityMatrixEvolution", [3, 2, 2], False), ("Operator", [3, 3], False)]
+    if tier != "quick":
+        cells += [("AbsSpectrum", [4, 3], True), ("TwoDResponse", [4], False),
+                  ("TwoDResponse", [4], True), ("DensityMatrixEvolution", [4, 3], False)]
+    return cells
+
+
+def _r_supported(case):
+    unsupported = _g_supported(case)
+    if unsupported is None and case["cls"] == "Operator":
+        if case["ext"] == ".mat":
+            return "MatrixData.save_data documents .dat .txt .npy .npz only"
+        if case["ext"] in (".dat", ".txt") and not case["dtype"].startswith("real"):
+            return "text import of MatrixData reads a table of real numbers"
+    return unsupported
+
+
+def _r_source(case, k):
+    """(data, shape) of source no. k"""
+    shape = list(case["shape"])
+    if k == 2:
+        shape[0] += 2
+        if case["cls"] == "Operator":
+            shape[1] += 2
+    shape = tuple(shape)
+    f = [1.0, -1.75, 0.6][k]
+    if case["cls"] == "DensityMatrixEvolution" and len(shape) == 3:
+        return _herm(case["dtype"], shape[0], shape[1]) * f + (0.25 * k), shape
+    return _gdata(case["dtype"], shape) * f + (0.25 * k), shape
+
+
+class _RDataEnd:
+    """One exporting or receiving object of a data-file history, built as in G."""
+
+    def __init__(self, case, shape, data=None):
+        qr = isolation.qr()
+        cls, self.axis = case["cls"], None
+        self.with_axis = bool(case["axis"])
+        N = shape[0]
+        src = data is not None
+        ta = qr.TimeAxis(0.25, N, 1.5) if src else qr.TimeAxis(5.0, N, 2.0)
+        with qr.energy_units("int"):
+            fa = qr.FrequencyAxis(0.1, N, 0.01) if src else qr.FrequencyAxis(0.5, N, 0.02)
+        if cls == "DFunction":
+            self.obj = qr.DFunction(ta, data.copy() if src else numpy.zeros(N))
+            self.axis = ta
+            self.kw = {"with_axis": ta if self.with_axis else None}
+        elif cls == "AbsSpectrum":
+            self.obj = qr.AbsSpectrum(axis=fa, data=data.copy() if src else numpy.zeros(N))
+            self.axis = fa
+            self.kw = {}
+        elif cls == "TwoDResponse":
+            o = qr.TwoDResponse()
+            o.set_axis_1(fa)
+            o.set_axis_3(fa)
+            if src:
+                o.set_data_writable()
+                o.data = data.copy()
+                o.set_data_protected()
+            self.obj, self.axis = o, fa
+            self.kw = {"with_axis": fa if self.with_axis else None}
+        elif cls == "DensityMatrixEvolution":
+            from quantarhei.qm.propagators.dmevolution import DensityMatrixEvolution
+            o = DensityMatrixEvolution(ta)
+            o.data = data.copy() if src else numpy.zeros(shape, dtype=complex)
+            self.obj, self.kw = o, {}
+        elif cls == "Operator":
+            self.obj = qr.qm.Operator(data=data.copy() if src else numpy.zeros(shape))
+            self.kw = {}
+        else:
+            raise isolation.HarnessError("class " + cls)
+        self.cls = cls
+
+    def axis_values(self):
+        if self.cls == "AbsSpectrum":
+            return numpy.array(self.obj.axis.data, copy=True)
+        if self.with_axis:
+            return numpy.array(self.axis.data, copy=True)
+        return None
+
+
+def _r_lib(stage, f, case):
+    """(True, result) or (False, (stage, type, message, where)) for an exception from inside
+    the library; anything else is the harness' fault."""
+    try:
+        return True, f()
+    except isolation.HarnessError:
+        raise
+    except Exception as e:
+        where = _lib_frame(e)
+        if where is None:
+            raise isolation.HarnessError("R harness failure at %s: %r in %r" % (stage, e, case))
+        return False, (stage, type(e).__name__, str(e)[:160], where)
+
+
+def _r_opkind(op):
+    return {"E": "later-export", "S": "later-export", "I": "later-import", "L": "later-import",
+            "W": "write-into-another-receiver"}[op[0]]
+
+
+def _eval_r_data(case, tmp):
+    cls, ext, seq = case["cls"], case["ext"], case["ops"]
+    cell = "%s/%s/%s" % (ext, "with-axis" if case["axis"] else "no-axis",
+                         "real" if case["dtype"].startswith("real") else "complex")
+    hist = "%s %s data-file history %s" % (cls, cell, " ".join(seq))
+    unsupported = _r_supported(case)
+    fn = os.path.join(tmp, "scratch" + ext)
+    viol, recs = [], []
+    held = None                     # (data, axis values | None) the file holds
+    nimp = 0
+
+    def refused(err):
+        return {"nontrivial": False, "outcome": ["refused", cls, cell], "violations": [],
+                "info": {"unsupported": "%s %s: %s" % (cls, cell, unsupported)}}
+
+    def raised(err):
+        stage, tname, msg, where = err
+        viol.append(("reuse/%s-raises:%s/%s/%s" % (stage, tname, cls, cell),
+                     "%s -> %s raised %s: %s [%s]" % (hist, stage, tname, msg, where),
+                     {"where": where}))
+
+    def check_receivers(i, op):
+        for j, r in enumerate(recs):
+            if r.get("fresh"):
+                what = ("import-differs-from-last-export", "just imported, differs from the "
+                        "array exported last")
+            else:
+                what = ("imported-data-changed-by-%s" % _r_opkind(op),
+                        "imported at step %d, changed at step %d (%s)" % (r["step"] + 1,
+                                                                         i + 1, op))
+            got = numpy.asarray(r["end"].obj.data)
+            bad = None
+            if got.shape != r["data"].shape:
+                bad = "data shape %s instead of %s" % (got.shape, r["data"].shape)
+            else:
+                ok, err = _entrywise(got, r["data"])
+                if not ok:
+                    bad = "data (worst relative deviation of an entry %g)" % err
+            if bad is None and r["axis"] is not None:
+                ax = r["end"].axis_values()
+                if ax.shape != r["axis"].shape:
+                    bad = "axis shape %s" % (ax.shape,)
+                else:
+                    ok, err = approx(ax, r["axis"], TOL)
+                    if not ok:
+                        bad = "axis values (max abs deviation %g)" % err
+            r["fresh"] = False
+            if bad is not None:
+                viol.append(("reuse/%s/%s/%s" % (what[0], cls, cell),
+                             "%s: receiver no. %d %s: %s" % (hist, j + 1, what[1], bad),
+                             {"step": i + 1, "receiver": j + 1}))
+                return False
+        return True
+
+    def do_import(i):
+        end = _RDataEnd(case, held[0].shape)
+        ok, err = _r_lib("import", lambda: end.obj.load_data(fn, **end.kw), case)
+        if not ok:
+            return err
+        recs.append({"end": end, "data": held[0].copy(), "step": i, "fresh": True,
+                     "axis": None if held[1] is None else held[1].copy()})
+        return None
+
+    for i, op in enumerate(list(seq) + ["I"]):      # a final import: the file is the last export
+        if op[0] == "E":
+            data, shape = _r_source(case, int(op[1]))
+            src = _RDataEnd(case, shape, data)
+            ok, err = _r_lib("export", lambda: src.obj.save_data(fn, **src.kw), case)
+            if not ok:
+                if unsupported is not None:
+                    return refused(err)
+                raised(err)
+                break
+            held = (data, src.axis_values())
+        elif op == "I":
+            err = do_import(i)
+            if err is not None:
+                if unsupported is not None:
+                    return refused(err)
+                raised(err)
+                break
+            nimp += 1
+        elif op == "W":
+            r = recs[-1]
+            d = r["end"].obj.data
+            try:
+                d[...] = d * (-1.0) + 0.5           # in place, whatever array is handed out
+            except ValueError:
+                pass                                 # not writable: nothing was written
+            r["data"] = numpy.array(r["end"].obj.data, copy=True)   # its own new content
+            ax = r["end"].axis_values()
+            r["axis"] = None if ax is None else ax
+        if not check_receivers(i, op):
+            break
+    return {"nontrivial": "I" in seq,        # a receiver is read again after a later step
+            "outcome": ["ok" if not viol else "bad", cls, cell, len(recs),
+                        _digest(recs[-1]["end"].obj.data) if recs else None],
+            "violations": viol}
+
+
+def _eval_r_parcel(case, tmp):
+    from quantarhei.core.parcel import save_parcel, load_parcel
+    cls, route, seq = case["cls"], case["route"], case["ops"]
+    hist = "%s parcel history via %s: %s" % (cls, route, " ".join(seq))
+    fn = os.path.join(tmp, "scratch.qrp")
+    viol, recs, twins = [], [], {}
+    held = None
+
+    def expected(v):
+        if v not in twins:
+            tw = _build(cls, v)[0]
+            twins[v] = (type(tw).__module__ + "." + type(tw).__name__,
+                        _freeze(observe(cls, tw)))
+        return twins[v]
+
+    loader = _build(cls, 1)[0]
+    for i, op in enumerate(list(seq) + ["L"]):
+        if op[0] == "S":
+            o = _build(cls, int(op[1]))[0]
+            ok, err = _r_lib("save", (lambda: o.save(fn)) if route == "save-load"
+                             else (lambda: save_parcel(o, fn)), case)
+            held = int(op[1])
+        else:
+            ok, err = _r_lib("load", (lambda: loader.load(fn)) if route == "save-load"
+                             else (lambda: load_parcel(fn)), case)
+            if ok:
+                recs.append({"obj": err, "v": held, "step": i, "fresh": True})
+        if not ok:
+            stage, tname, msg, where = err
+            viol.append(("reuse/%s-raises:%s/%s/parcel" % (stage, tname, cls),
+                         "%s -> %s raised %s: %s [%s]" % (hist, stage, tname, msg, where),
+                         {"where": where}))
+            break
+        bad = None
+        for j, r in enumerate(recs):
+            tname, exp = expected(r["v"])
+            o = r["obj"]
+            what = "loaded-object-differs-from-last-save" if r["fresh"] else \
+                "loaded-object-changed-by-%s" % _r_opkind(op)
+            r["fresh"] = False
+            if type(o).__module__ + "." + type(o).__name__ != tname:
+                bad = (what, "object no. %d is a %s" % (j + 1, type(o).__name__))
+                break
+            diff = _obs_diff(exp, _freeze(observe(cls, o)))
+            if diff is not None:
+                bad = (what, "observable %s of object no. %d (loaded at step %d) differs from "
+                       "the never-saved twin after step %d (%s)" % (diff[0], j + 1,
+                                                                   r["step"] + 1, i + 1,
+                                                                   diff[1]))
+                break
+        if bad is not None:
+            viol.append(("reuse/%s/%s/parcel" % (bad[0], cls), "%s: %s" % (hist, bad[1]),
+                         {"step": i + 1}))
+            break
+    return {"nontrivial": "L" in seq,
+            "outcome": ["ok" if not viol else "bad", cls, route, len(recs), held],
+            "violations": viol}
+
+
+def eval_r(case):
+    isolation.reset_manager()
+    tmp = _mkdtemp("c18r_")
+    try:
+        if case["fmt"] == "parcel":
+            return _eval_r_parcel(case, tmp)
+        return _eval_r_data(case, tmp)
+    finally:
+        shutil.rmtree(tmp, ignore_errors=True)
+        isolation.reset_manager()
+
+
+def _r_sequences(ops, first, maxlen, needs_receiver):
+    """All op sequences of length <= maxlen which start with `first` (the first export is
+    no. 0: the sources are interchangeable); ops of `needs_receiver` only after an import."""
+    out = []
+    for n in range(1, maxlen + 1):
+        for rest in itertools.product(ops, repeat=n - 1):
+            seq = (first,) + rest
+            ok, have = True, False
+            for o in seq:
+                if o in needs_receiver and not have:
+                    ok = False
+                    break
+                have = have or o in ("I", "L")
+            if ok:
+                out.append(list(seq))
+    return out
+
+
+def cases_r(tier):
+    ldata, lparcel = r_bounds(tier)
+    cs = []
+    for seq in _r_sequences(R_DATA_OPS, "E0", ldata, ("W",)):
+        for cls, shape, axis in _r_cells(tier):
+            for ext in EXTS:
+                for f in ("real", "complex"):
+                    cs.append({"part": "R", "fmt": "data", "cls": cls, "ext": ext, "dtype": f,
+                               "shape": shape, "axis": axis, "ops": seq})
+    for seq in _r_sequences(R_PARCEL_OPS, "S0", lparcel, ()):
+        for cls in H_CLASSES:
+            for route in R_PARCEL_ROUTES:
+                if route not in ROUTES_OF.get(cls, ROUTES):
+                    continue
+                cs.append({"part": "R", "fmt": "parcel", "cls": cls, "route": route,
+                           "ops": seq})
+    return cs
+
+
 def eval_case(case):
     if case["part"] == "G":
         return eval_g(case)
     if case["part"] == "D":
         return eval_d(case)
+    if case["part"] == "I":
+        return eval_i(case)
+    if case["part"] == "R":
+        return eval_r(case)
     return eval_h(case)
 
 
@@ -1248,7 +1896,16 @@ def replay(case):
 
 
 def cases(tier):
-    return cases_g(tier) + cases_d(tier) + cases_h(tier)
+    return cases_g(tier) + cases_r(tier) + cases_d(tier) + cases_i(tier) + cases_h(tier)
+
+
+def _collect_i(infos):
+    twin, content = {}, {}
+    for i in infos:
+        for k, d in (("i_twin_fail", twin), ("i_content", content)):
+            if k in i:
+                d[i[k]] = d.get(i[k], 0) + 1
+    return twin, content
 
 
 def _collect(run, infos):
@@ -1279,8 +1936,17 @@ def run(run):
                 "sequence of <=%d savedir calls into one directory, tag of each call in "
                 "{automatic, 1, 2, 3, 's'} (user tags not repeated) x 16 casts of classes x "
                 "{fresh object per call, one instance}, loaddir after every call; "
-                "non-trivial = at least two calls"
-                % (maxdepth, lmid, d_bounds(run.tier)))
+                "non-trivial = at least two calls; H also reads the SAVED object before/after "
+                "the call and at the end of the history; I: every history pre(<=%d contexts) "
+                "[read receiver] export+import [read inside] exit all [read] [one later context, "
+                "read] x context operator class x class x matrix kind x extension, "
+                "non-trivial = import inside at least one context; R: every sequence of <=%d "
+                "steps {export 0/1/longer, import, write in place} on one data file name x "
+                "class x extension x dtype x axis and of <=%d steps {save 0/1, load} on one "
+                "parcel name x class x route, every receiver read again after every step, "
+                "non-trivial = a receiver exists before the last step"
+                % ((maxdepth, lmid, d_bounds(run.tier), i_bounds(run.tier)[1])
+                   + r_bounds(run.tier)))
     run.assumptions = [
         "expected values of H come from a twin world: the same history on identically built "
         "objects that are never saved (context transparency itself is C04/C05)",
@@ -1296,6 +1962,19 @@ def run(run):
         "was not in use, both leave all other entries alone, loaddir returns every entry with "
         "the class and the observable data of a never-saved twin; nothing is claimed about "
         "the value of an automatic tag, nor about a user tag given twice in one history",
+        "saved object: reading an object twice at the same place is idempotent (the second "
+        "read right after save is made in the twin world as well)",
+        "I: export and import happen at the same place of the history (a file written in one "
+        "context and read in another one holds numbers of another representation: nothing is "
+        "claimed); the twin exports and imports outside every context; context operators are "
+        "objects of their own except B:S of a Hamiltonian, which is the exporting Hamiltonian",
+        "I: a cell whose export/import raises is not offered when the same array raises the "
+        "same exception type when exported/imported outside every context (counted in "
+        "import_content_not_carried_by_format), or when the twin itself cannot export/import "
+        "(import_cells_failing_outside_contexts)",
+        "R: a longer, never a shorter array is exported over a file receivers imported from; "
+        "after a write in place only the OTHER receivers and the file are claimed unchanged, "
+        "the written receiver is re-read and taken as it is",
         "G shape rule: where the layout of the file cannot tell a dimension of length one "
         "from no dimension (header-less .dat/.txt tables without axis; [axis | data] layout "
         "with one data column) the loaded shape may be the exported one with unit dimensions "
@@ -1309,14 +1988,29 @@ def run(run):
                   "D": {"tags": D_TAGS, "max_calls": d_bounds(run.tier),
                         "objects": D_OBJECTS, "casts": len(CLASSES)},
                   "H": {"contexts": tokens, "max_nesting": maxdepth, "max_mid_ops": lmid,
-                        "classes": CLASSES, "routes": ROUTES,
-                        "context_operator_class": KOPS, "matrix_kind": DATA_KINDS}}
+                        "classes": H_CLASSES, "routes": ROUTES, "routes_of": ROUTES_OF,
+                        "context_operator_class": KOPS,
+                        "matrix_kind": {c: h_kinds(run.tier, c) for c in DATA_KINDS}},
+                  "I": {"contexts": i_bounds(run.tier)[0],
+                        "max_nesting": i_bounds(run.tier)[1], "classes": I_CLASSES,
+                        "extensions": i_bounds(run.tier)[3], "read_points": I_POINTS,
+                        "matrix_kinds_per_class": i_bounds(run.tier)[2] or "all"},
+                  "R": {"data_ops": R_DATA_OPS, "parcel_ops": R_PARCEL_OPS,
+                        "max_steps_data": r_bounds(run.tier)[0],
+                        "max_steps_parcel": r_bounds(run.tier)[1],
+                        "data_cells": [list(c) for c in _r_cells(run.tier)],
+                        "parcel_routes": R_PARCEL_ROUTES}}
     ig = run_grid(run, cases_g(run.tier), eval_case, section="G-formats")
+    ir = run_grid(run, cases_r(run.tier), eval_case, section="R-file-reuse")
     run_grid(run, cases_d(run.tier), eval_case, section="D-directories")
+    ii = run_grid(run, cases_i(run.tier), eval_case, section="I-import-in-context")
     ih = run_grid(run, cases_h(run.tier), eval_case, section="H-parcels")
-    worst, unsup, twin, squeezed = _collect(run, ig + ih)
+    worst, unsup, twin, squeezed = _collect(run, ig + ir + ii + ih)
+    itwin, icontent = _collect_i(ii)
     run.note(worst_relative_deviation=worst, cells_not_offered_by_class=unsup,
-             twin_world_failures=twin, cells_loaded_with_unit_dimensions_dropped=squeezed)
+             twin_world_failures=twin, cells_loaded_with_unit_dimensions_dropped=squeezed,
+             import_cells_failing_outside_contexts=itwin,
+             import_content_not_carried_by_format=icontent)
     if twin:
         raise isolation.HarnessError("twin world failed for %d histories: %r"
                                      % (sum(twin.values()), list(twin)[:3]))
